@@ -66,7 +66,20 @@ def parse_vspec(path):
             before, _, after = rest.partition("<<<")
             rest = before.strip()
             blk = read_block(after)
-        if head == "unit":
+        if head == "include":
+            inc = parse_vspec(os.path.join(os.path.dirname(path), rest))
+            for a, pth in inc["sources"].items():
+                if a in spec["sources"] and spec["sources"][a] != pth:
+                    raise Undecided(f"{path}: source alias clash {a}")
+                spec["sources"][a] = pth
+            for sh in inc["shims"]:
+                if sh not in spec["shims"]:
+                    spec["shims"].append(sh)
+            spec["top"].extend(inc["top"])
+            spec["prelude"].extend(inc["prelude"])
+            spec["entries"].extend(inc["entries"])
+            spec["lemmas"].extend(inc["lemmas"])
+        elif head == "unit":
             spec["unit"] = rest
         elif head == "source":
             a, p = rest.split()
@@ -138,6 +151,10 @@ def parse_vspec(path):
             cur_fn["r5"] = True
         elif head == "r4":
             cur_fn["r4"] = True
+        elif head == "r12":
+            cur_fn["r12"] = True
+        elif head == "fnattr":
+            cur_fn.setdefault("fnattrs", []).append(rest)
         elif head == "r9":
             cur_fn["r9"] = [int(x) for x in rest.split(",")] if rest else "all"
         elif head == "contract":
@@ -145,11 +162,12 @@ def parse_vspec(path):
         elif head == "loop":
             cur_fn["loops"][int(rest)] = blk
         elif head == "proof":
-            m = re.match(r'(before|after)\s+"(.*)"\s*(#(\d+))?$', rest)
+            m = re.match(r'(before|after)\s+"(.*)"\s*(#(\d+))?\s*(\+(\d+))?$', rest)
             if not m:
                 raise Undecided(f"{path}:{i+1}: bad proof line")
             cur_fn["proofs"].append({"where": m.group(1), "anchor": m.group(2), "text": blk,
-                                     "nth": int(m.group(4)) if m.group(4) else None})
+                                     "nth": int(m.group(4)) if m.group(4) else None,
+                                     "plus": int(m.group(6)) if m.group(6) else 0})
         elif head == "dead":
             m = re.match(r'"(.*)"$', rest)
             cur_fn["dead"].append(m.group(1))
@@ -264,6 +282,14 @@ def apply_edits(src, a, b, edits, em, note=None):
         em.raw(src.text(pos, b), ("src", src, pos))
 
 
+def privatise(text):
+    """shims are written with `pub`/`open`; the generated crate is one private module (rule R7), so drop them."""
+    text = re.sub(r"(?m)^(\s*)pub\s+(?=(open\s+|closed\s+|uninterp\s+)?(spec|proof|axiom|broadcast|exec)\b|fn\b|struct\b|enum\b|trait\b|const\b|type\b)", r"\1", text)
+    text = re.sub(r"(?m)^(\s*)(open|closed)\s+(?=spec\b)", r"\1", text)
+    text = re.sub(r"(?m)^(\s*)pub\s+(?=\w+\s*:)", r"\1", text)
+    return text
+
+
 LABEL_RE = re.compile(r"//@\s*([A-Za-z0-9_:.\-\[\],]+)")
 
 
@@ -369,6 +395,18 @@ class UnitGen:
                     edits.append((s, e, "fmt_opaque()", "R5"))
                     self.rewrites.append({"rule": "R5", "what": f"format!(..) -> fmt_opaque() in {qual}",
                                           "file": src.rel, "line": src.line_of(s)})
+        # R12: M.entry(K).or_default() -> vx_entry_or_default(&mut M, K)   (definition of Entry::or_default)
+        if fs.get("r12"):
+            for n in nodes:
+                if n["kind"] == "entry_or_default":
+                    s0, e0 = n["range"]
+                    ms, me = n["map"]
+                    ks, ke = n["key"]
+                    edits.append((s0, ms, "vx_entry_or_default(&mut *", "R12"))
+                    edits.append((me, ks, ", ", "R12"))
+                    edits.append((ke, e0, ")", "R12"))
+                    self.rewrites.append({"rule": "R12", "what": f"`{src.text(ms, me)}.entry(k).or_default()` -> vx_entry_or_default(&mut map, k) in {qual}",
+                                          "file": src.rel, "line": src.line_of(s0)})
         # R1: Option::and_then / map closures
         ccs = [n for n in nodes if n["kind"] == "closure_call" and n["method"] in ("and_then", "map")]
         sel = range(len(ccs)) if fs["r1"] == "all" else fs["r1"]
@@ -435,11 +473,16 @@ class UnitGen:
             le = src.bytes.find(b"\n", off)
             if le < 0:
                 le = len(src.bytes)
+            for _ in range(p.get("plus", 0)):
+                ls = le + 1
+                le = src.bytes.find(b"\n", ls)
+                if le < 0:
+                    le = len(src.bytes)
             at = ls if p["where"] == "before" else le + 1
             segs = self._emit_spec(p["text"], qual, "proof")
             edits.append((at, at, ("MULTI", segs), "proof"))
         # canaries
-        if self.canary and not fs["nocanary"]:
+        if self.canary and not fs["nocanary"] and not fs["external_body"]:
             for n in nodes:
                 if n["kind"] != "block" or n["in_closure"]:
                     continue
@@ -540,6 +583,15 @@ class UnitGen:
                     edits.append((a + len(m.group(1).encode()), b, ent["eval"] + ";", "R11"))
                     self.rewrites.append({"rule": "R11", "what": f"const {ent['name']} initialiser `{m.group(2)}` evaluated to {ent['eval']}",
                                           "file": src.rel, "line": src.line_of(a)})
+                if ent["kind"] == "const":
+                    # R14: elided lifetime in a const's reference type is 'static (spelled out for the verus! macro)
+                    txt = src.text(a, b)
+                    m = re.search(r":\s*&(?!')", txt)
+                    if m and "=" in txt and m.start() < txt.index("="):
+                        off = a + len(txt[:m.end()].encode())
+                        edits.append((off, off, "'static ", "R14"))
+                        self.rewrites.append({"rule": "R14", "what": f"const {ent['name']}: elided lifetime written as 'static",
+                                              "file": src.rel, "line": src.line_of(a)})
                 if ent["derive"]:
                     em.raw(f"#[derive({ent['derive']})]\n", ("rw", "derive"))
                 self._emit_edits(src, a, b, edits, em)
@@ -588,6 +640,8 @@ class UnitGen:
                             self._fn_edits(src, x, fs, edits, qual)
                             if fs["external_body"]:
                                 em.raw("#[verifier::external_body]\n")
+                            for fa in fs.get("fnattrs", []):
+                                em.raw(f"#[{fa}]\n")
                             self.functions.append({"fn": qual, "file": src.rel,
                                                    "lines": [src.line_of(a), src.line_of(b)],
                                                    "sha256": hashlib.sha256(src.bytes[a:b]).hexdigest(),
@@ -659,6 +713,8 @@ class UnitGen:
                 em.raw(f"// ---- fn {ent['name']} from {src.rel}:{src.line_of(a)}\n")
                 if ent["external_body"]:
                     em.raw("#[verifier::external_body]\n")
+                for fa in ent.get("fnattrs", []):
+                    em.raw(f"#[{fa}]\n")
                 self.functions.append({"fn": ent["name"], "file": src.rel, "lines": [src.line_of(a), src.line_of(b)],
                                        "sha256": hashlib.sha256(src.bytes[a:b]).hexdigest(),
                                        "external_body": ent["external_body"],
